@@ -478,6 +478,7 @@ func (w *recWriter) take() [][]byte {
 type site struct {
 	hkind, thr int
 	opt        int // bit 0: addSource, bit 1: colorful
+	derive     int // how the Logger whose Relay is installed was obtained, see deriveLogger
 	mux        *httpd.Mux
 	out        *recWriter
 	srv        *httptest.Server
@@ -489,8 +490,23 @@ type site struct {
 	active     atomic.Int64
 }
 
-func newSite(hkind, thr, opt int) *site {
-	s := &site{hkind: hkind, thr: thr, opt: opt, out: &recWriter{}, srvLog: &recWriter{}, specs: map[int]*reqSpec{}, tidSeen: map[string]int{}}
+// deriveLogger: 0 New(h); 1 New(h).With("svc","api"); 2 New(h).WithGroup("g");
+// 3 New(h).With("svc","api").WithGroup("g").With("k",7). The Relay of a derived Logger must log like the
+// original, with the derived attributes / group on every record.
+func deriveLogger(l *logger.Logger, derive int) *logger.Logger {
+	switch derive {
+	case 1:
+		return l.With("svc", "api")
+	case 2:
+		return l.WithGroup("g")
+	case 3:
+		return l.With("svc", "api").WithGroup("g").With("k", 7)
+	}
+	return l
+}
+
+func newSite(hkind, thr, opt, derive int) *site {
+	s := &site{hkind: hkind, thr: thr, opt: opt, derive: derive, out: &recWriter{}, srvLog: &recWriter{}, specs: map[int]*reqSpec{}, tidSeen: map[string]int{}}
 	opts := logger.NewOptions(slogLevel(thr), opt&2 != 0, opt&1 != 0)
 	var h logger.Handler
 	switch hkind {
@@ -502,7 +518,7 @@ func newSite(hkind, thr, opt int) *site {
 		h = logger.NewJsonHandler(s.out, opts)
 	}
 	s.mux = httpd.NewMux()
-	s.mux.HandleRelay(logger.New(h).Relay)
+	s.mux.HandleRelay(deriveLogger(logger.New(h), derive).Relay)
 	s.mux.Handle("/m/:n", httpd.MethodAll, s.scripted)
 	s.mux.HandleNoRoute(s.scripted)
 	// the client of a HEAD request (or of a flushed response) can be done before Relay's deferred REQ_END has
@@ -695,8 +711,9 @@ func tokenizeText(line string) (map[string]string, bool) {
 	return kv, true
 }
 
-func decodeRecord(hkind int, b []byte) rawRec {
+func decodeRecord(hkind, derive int, b []byte) rawRec {
 	var r rawRec
+	withTop, group, withInner := derive == 1 || derive == 3, derive >= 2, derive == 3
 	if len(b) == 0 || b[len(b)-1] != '\n' {
 		return r
 	}
@@ -710,9 +727,16 @@ func decodeRecord(hkind int, b []byte) rawRec {
 		if !ok {
 			return r
 		}
-		r.level, r.tag, r.ip, r.method, r.path, r.tid = kv["level"], kv["tag"], kv["ip"], kv["method"], kv["path"], kv["tid"]
-		r.code, _ = strconv.Atoi(kv["code"])
-		r.pvText, r.hasPv = kv["panic"]
+		g := ""
+		if group {
+			g = "g."
+		}
+		if withTop && kv["svc"] != "api" || withInner && kv["g.k"] != "7" {
+			return r // the derived attributes are missing
+		}
+		r.level, r.tag, r.ip, r.method, r.path, r.tid = kv["level"], kv[g+"tag"], kv[g+"ip"], kv[g+"method"], kv[g+"path"], kv[g+"tid"]
+		r.code, _ = strconv.Atoi(kv[g+"code"])
+		r.pvText, r.hasPv = kv[g+"panic"]
 		r.ok = true
 	case 2:
 		if strings.ContainsRune(line, '\n') {
@@ -722,6 +746,7 @@ func decodeRecord(hkind int, b []byte) rawRec {
 		if json.Unmarshal([]byte(line), &m) != nil {
 			return r
 		}
+		top := m
 		str := func(k string) string {
 			var s string
 			if raw, ok := m[k]; ok {
@@ -731,7 +756,21 @@ func decodeRecord(hkind int, b []byte) rawRec {
 			}
 			return s
 		}
-		r.level, r.tag, r.ip, r.method, r.path, r.tid = str("level"), str("tag"), str("ip"), str("method"), str("path"), str("tid")
+		r.level = str("level")
+		if withTop && str("svc") != "api" {
+			return r
+		}
+		if group {
+			var inner map[string]json.RawMessage
+			if json.Unmarshal(top["g"], &inner) != nil {
+				return r
+			}
+			m = inner
+			if withInner && string(m["k"]) != "7" {
+				return r
+			}
+		}
+		r.tag, r.ip, r.method, r.path, r.tid = str("tag"), str("ip"), str("method"), str("path"), str("tid")
 		r.code, _ = strconv.Atoi(string(m["code"]))
 		if raw, ok := m["panic"]; ok {
 			r.hasPv = true
@@ -749,6 +788,28 @@ func decodeRecord(hkind int, b []byte) rawRec {
 		f := strings.Fields(line)
 		if len(f) < 4 || len(f[0]) != 10 || len(f[1]) != 8 || len(f[2]) != 3 {
 			return r
+		}
+		// values of With(...) come right after the message (none for REQ_BEG / REQ_END), keys and groups are not printed
+		var extras []string
+		if withTop {
+			extras = append(extras, "api")
+		}
+		if withInner {
+			extras = append(extras, "7")
+		}
+		if f[2] == "[I]" {
+			if len(f) < 4+len(extras) {
+				return r
+			}
+			for i, x := range extras {
+				if f[3+i] != x {
+					return r
+				}
+			}
+			f = append(append([]string(nil), f[:3]...), f[3+len(extras):]...)
+			if len(f) < 4 {
+				return r
+			}
 		}
 		switch f[2] {
 		case "[I]":
@@ -776,6 +837,15 @@ func decodeRecord(hkind int, b []byte) rawRec {
 			rest := line[len(f[0])+1+len(f[1])+1+len(f[2])+1 : k]
 			if !strings.HasPrefix(rest, "goroutine ") {
 				return r
+			}
+			if len(extras) > 0 {
+				// "<stack> api [7] <value>": cut the derived values off the front of what follows the stack
+				after := afterStack(rest)
+				want := strings.Join(extras, " ") + " "
+				if !strings.HasPrefix(after, want) {
+					return r
+				}
+				rest = rest[:len(rest)-len(after)] + after[len(want):]
 			}
 			r.hasPv, r.pvText = true, rest
 			r.ok = true
@@ -918,7 +988,7 @@ func (rn *runner) batch(s *site, specs []*reqSpec) {
 		if s.opt&2 != 0 {
 			b = ansiRe.ReplaceAll(b, nil)
 		}
-		d := decodeRecord(s.hkind, b)
+		d := decodeRecord(s.hkind, s.derive, b)
 		if !d.ok {
 			rn.violation("undecodable-record", strconv.Itoa(s.hkind), hk.Hx(b))
 			continue
